@@ -791,6 +791,7 @@ func (e *Enc) callSiteAsserts(x *ssa.Call, cc *callCtx) {
 		if ca.Site != 0 && ca.Site != n {
 			continue
 		}
+		e.r.siteCnt["matched:"+ca.C.Src]++
 		extra := map[string]SV{}
 		if callee != nil {
 			for i, p := range callee.Params {
